@@ -104,15 +104,32 @@ def encSegs : List (Nat × Nat) → Bytes
   | [] => []
   | (i, m) :: t => le8 i ++ (le8 m ++ encSegs t)
 
+/-- `value.nesting_depth() > PropertyValue::MAX_NESTING_DEPTH` (only where the guard exists) -/
+def nestingRefused (cfg : Cfg) (v : PV) : Bool :=
+  cfg.encodeChecksNesting && (match cfg.pv.maxDepth with
+    | some m => decide (m < v.nesting)
+    | none => false)
+
 /-- `value.encode()` behind the nesting guard of the `fix:` commit
     (`if value.nesting_depth() > MAX_NESTING_DEPTH { return Err(WalProtocol(..)) }`);
     a value `encode` would panic on (`expect`) is `WErr.panic` -/
 def encVal (cfg : Cfg) (v : PV) : Except WErr Bytes :=
-  if cfg.encodeChecksNesting && (match cfg.pv.maxDepth with | some m => decide (m < v.nesting) | none => false) then
+  if nestingRefused cfg v then
     .error (.proto "property value nested too deeply")
   else match encodeChecked v with
     | some b => .ok b
     | none => .error .panic
+
+/-- the records `encode_body` accepts (returns `Ok`): names/keys shorter than 2^32 bytes, fewer than 2^32
+    segments, property values the nesting guard lets through -/
+def Rec.fitsWire (cfg : Cfg) : Rec → Bool
+  | .createLabel name _ => decide (name.length < two32)
+  | .manifestSwitch _ segs _ _ => decide (segs.length < two32)
+  | .setNodeProperty _ k v => decide (k.length < two32) && !nestingRefused cfg v
+  | .setEdgeProperty _ _ _ k v => decide (k.length < two32) && !nestingRefused cfg v
+  | .removeNodeProperty _ k => decide (k.length < two32)
+  | .removeEdgeProperty _ _ _ k => decide (k.length < two32)
+  | _ => true
 
 /-- mirrors `WalRecord::encode_body` (payload after the type byte) -/
 def encodePayload (cfg : Cfg) : Rec → Except WErr Bytes
@@ -182,133 +199,178 @@ def rdSegs (p : Bytes) : Nat → Nat → Except WErr (List (Nat × Nat))
     let t ← rdSegs p n (off + 16)
     pure ((i, m) :: t)
 
+/-! the arms of `decode_body`'s `match ty`, one definition each (`p` is `payload = &body[1..]`) -/
+
 open Generated in
-/-- mirrors `WalRecord::decode_body` -/
+/-- arm 3 (PageWrite): exact length, `page.copy_from_slice(&payload[8..])` -/
+def armPageWrite (p : Bytes) : Except WErr Rec :=
+  if p.length ≠ 8 + walPageSize then .error (.proto "invalid PageWrite payload length")
+  else do
+    let pid ← rd p 0 8
+    match slice p 8 p.length with
+    | none => .error .panic
+    | some page => if page.length = walPageSize then pure (.pageWrite pid page) else .error .panic
+
+/-- arm 15 (CreateLabel) -/
+def armCreateLabel (p : Bytes) : Except WErr Rec :=
+  if p.length < 4 + 4 then .error (.proto "invalid CreateLabel payload length")
+  else do
+    let l ← rd p 0 4
+    let n ← rd p 4 8
+    if p.length < 8 + n then .error (.proto "invalid CreateLabel payload length")
+    else do
+      let name ← rdStr p 8 (8 + n) "invalid UTF-8 in label name"
+      pure (.createLabel name l)
+
+/-- arm 5 (CreateNode) -/
+def armCreateNode (p : Bytes) : Except WErr Rec :=
+  if p.length ≠ 8 + 4 + 4 then .error (.proto "invalid CreateNode payload length")
+  else do
+    let e ← rd p 0 8
+    let l ← rd p 8 12
+    let i ← rd p 12 16
+    pure (.createNode e l i)
+
+/-- arm 16 (AddNodeLabel) -/
+def armAddNodeLabel (p : Bytes) : Except WErr Rec :=
+  if p.length ≠ 8 then .error (.proto "invalid AddNodeLabel payload length")
+  else do
+    let n ← rd p 0 4
+    let l ← rd p 4 8
+    pure (.addNodeLabel n l)
+
+/-- arm 17 (RemoveNodeLabel) -/
+def armRemoveNodeLabel (p : Bytes) : Except WErr Rec :=
+  if p.length ≠ 8 then .error (.proto "invalid RemoveNodeLabel payload length")
+  else do
+    let n ← rd p 0 4
+    let l ← rd p 4 8
+    pure (.removeNodeLabel n l)
+
+/-- arm 6 (CreateEdge) -/
+def armCreateEdge (p : Bytes) : Except WErr Rec :=
+  if p.length ≠ 12 then .error (.proto "invalid CreateEdge payload length")
+  else do
+    let s ← rd p 0 4
+    let r ← rd p 4 8
+    let d ← rd p 8 12
+    pure (.createEdge s r d)
+
+/-- arm 7 (TombstoneNode) -/
+def armTombstoneNode (p : Bytes) : Except WErr Rec :=
+  if p.length ≠ 4 then .error (.proto "invalid TombstoneNode payload length")
+  else do
+    let n ← rd p 0 4
+    pure (.tombstoneNode n)
+
+/-- arm 8 (TombstoneEdge) -/
+def armTombstoneEdge (p : Bytes) : Except WErr Rec :=
+  if p.length ≠ 12 then .error (.proto "invalid TombstoneEdge payload length")
+  else do
+    let s ← rd p 0 4
+    let r ← rd p 4 8
+    let d ← rd p 8 12
+    pure (.tombstoneEdge s r d)
+
+/-- arm 9 (ManifestSwitch): `segments_end = 12 + count * 16`, second check `payload.len() < segments_end + K`
+    (`K = cfg.manifestTailCheck`), `Vec::with_capacity(count)` (`count * 16 ≤ payload.len()` by that check),
+    then `payload[segments_end .. segments_end + 16]` is read -/
+def armManifestSwitch (cfg : Cfg) (p : Bytes) : Except WErr Rec :=
+  if p.length < 8 + 4 + 8 + 8 then .error (.proto "invalid ManifestSwitch payload length")
+  else do
+    let e ← rd p 0 8
+    let count ← rd p 8 12
+    if p.length < 12 + count * 16 + cfg.manifestTailCheck then
+      .error (.proto "invalid ManifestSwitch payload length")
+    else do
+      let segs ← rdSegs p count 12
+      let pr ← rd p (12 + count * 16) (12 + count * 16 + 8)
+      let sr ← rd p (12 + count * 16 + 8) (12 + count * 16 + 16)
+      pure (.manifestSwitch e segs pr sr)
+
+/-- arm 10 (Checkpoint) -/
+def armCheckpoint (p : Bytes) : Except WErr Rec :=
+  if p.length ≠ 32 then .error (.proto "invalid Checkpoint payload length")
+  else do
+    let a ← rd p 0 8
+    let b ← rd p 8 16
+    let c ← rd p 16 24
+    let d ← rd p 24 32
+    pure (.checkpoint a b c d)
+
+/-- arm 11 (SetNodeProperty): the value is whatever follows the key (`PropertyValue::decode` ignores a tail) -/
+def armSetNodeProperty (cfg : Cfg) (p : Bytes) : Except WErr Rec :=
+  if p.length < 4 + 4 then .error (.proto "invalid SetNodeProperty payload length")
+  else do
+    let n ← rd p 0 4
+    let kl ← rd p 4 8
+    if p.length < 8 + kl then .error (.proto "invalid SetNodeProperty payload length")
+    else do
+      let k ← rdStr p 8 (8 + kl) "invalid UTF-8 in key"
+      let v ← rdVal cfg (p.drop (8 + kl))
+      pure (.setNodeProperty n k v)
+
+/-- arm 12 (SetEdgeProperty) -/
+def armSetEdgeProperty (cfg : Cfg) (p : Bytes) : Except WErr Rec :=
+  if p.length < 12 + 4 then .error (.proto "invalid SetEdgeProperty payload length")
+  else do
+    let s ← rd p 0 4
+    let r ← rd p 4 8
+    let d ← rd p 8 12
+    let kl ← rd p 12 16
+    if p.length < 16 + kl then .error (.proto "invalid SetEdgeProperty payload length")
+    else do
+      let k ← rdStr p 16 (16 + kl) "invalid UTF-8 in key"
+      let v ← rdVal cfg (p.drop (16 + kl))
+      pure (.setEdgeProperty s r d k v)
+
+/-- arm 13 (RemoveNodeProperty): exact length -/
+def armRemoveNodeProperty (p : Bytes) : Except WErr Rec :=
+  if p.length < 4 + 4 then .error (.proto "invalid RemoveNodeProperty payload length")
+  else do
+    let n ← rd p 0 4
+    let kl ← rd p 4 8
+    if p.length ≠ 8 + kl then .error (.proto "invalid RemoveNodeProperty payload length")
+    else do
+      let k ← rdStr p 8 (8 + kl) "invalid UTF-8 in key"
+      pure (.removeNodeProperty n k)
+
+/-- arm 14 (RemoveEdgeProperty): exact length -/
+def armRemoveEdgeProperty (p : Bytes) : Except WErr Rec :=
+  if p.length < 12 + 4 then .error (.proto "invalid RemoveEdgeProperty payload length")
+  else do
+    let s ← rd p 0 4
+    let r ← rd p 4 8
+    let d ← rd p 8 12
+    let kl ← rd p 12 16
+    if p.length ≠ 16 + kl then .error (.proto "invalid RemoveEdgeProperty payload length")
+    else do
+      let k ← rdStr p 16 (16 + kl) "invalid UTF-8 in key"
+      pure (.removeEdgeProperty s r d k)
+
+open Generated in
+/-- mirrors `WalRecord::decode_body`: `if body.is_empty() {..}`, `ty = body[0]`, `payload = &body[1..]`, `match ty` -/
 def decodeBody (cfg : Cfg) (body : Bytes) : Except WErr Rec :=
   match body with
   | [] => .error (.proto "empty record body")
   | ty :: p =>
     if ty = walTagBeginTx then (readU64 p).map .beginTx
     else if ty = walTagCommitTx then (readU64 p).map .commitTx
-    else if ty = walTagPageWrite then
-      if p.length ≠ 8 + walPageSize then .error (.proto "invalid PageWrite payload length")
-      else do
-        let pid ← rd p 0 8
-        match slice p 8 p.length with
-        | none => .error .panic
-        | some page => if page.length = walPageSize then pure (.pageWrite pid page) else .error .panic
+    else if ty = walTagPageWrite then armPageWrite p
     else if ty = walTagPageFree then (readU64 p).map .pageFree
-    else if ty = walTagCreateLabel then
-      if p.length < 4 + 4 then .error (.proto "invalid CreateLabel payload length")
-      else do
-        let l ← rd p 0 4
-        let n ← rd p 4 8
-        if p.length < 8 + n then .error (.proto "invalid CreateLabel payload length")
-        else do
-          let name ← rdStr p 8 (8 + n) "invalid UTF-8 in label name"
-          pure (.createLabel name l)
-    else if ty = walTagCreateNode then
-      if p.length ≠ 8 + 4 + 4 then .error (.proto "invalid CreateNode payload length")
-      else do
-        let e ← rd p 0 8
-        let l ← rd p 8 12
-        let i ← rd p 12 16
-        pure (.createNode e l i)
-    else if ty = walTagAddNodeLabel then
-      if p.length ≠ 8 then .error (.proto "invalid AddNodeLabel payload length")
-      else do
-        let n ← rd p 0 4
-        let l ← rd p 4 8
-        pure (.addNodeLabel n l)
-    else if ty = walTagRemoveNodeLabel then
-      if p.length ≠ 8 then .error (.proto "invalid RemoveNodeLabel payload length")
-      else do
-        let n ← rd p 0 4
-        let l ← rd p 4 8
-        pure (.removeNodeLabel n l)
-    else if ty = walTagCreateEdge then
-      if p.length ≠ 12 then .error (.proto "invalid CreateEdge payload length")
-      else do
-        let s ← rd p 0 4
-        let r ← rd p 4 8
-        let d ← rd p 8 12
-        pure (.createEdge s r d)
-    else if ty = walTagTombstoneNode then
-      if p.length ≠ 4 then .error (.proto "invalid TombstoneNode payload length")
-      else do
-        let n ← rd p 0 4
-        pure (.tombstoneNode n)
-    else if ty = walTagTombstoneEdge then
-      if p.length ≠ 12 then .error (.proto "invalid TombstoneEdge payload length")
-      else do
-        let s ← rd p 0 4
-        let r ← rd p 4 8
-        let d ← rd p 8 12
-        pure (.tombstoneEdge s r d)
-    else if ty = walTagManifestSwitch then
-      if p.length < 8 + 4 + 8 + 8 then .error (.proto "invalid ManifestSwitch payload length")
-      else do
-        let e ← rd p 0 8
-        let count ← rd p 8 12
-        let segmentsEnd := 12 + count * 16
-        if p.length < segmentsEnd + cfg.manifestTailCheck then
-          .error (.proto "invalid ManifestSwitch payload length")
-        else do
-          -- `Vec::with_capacity(count)`: `count * 16 ≤ payload.len()` by the check above
-          let segs ← rdSegs p count 12
-          let pr ← rd p segmentsEnd (segmentsEnd + 8)
-          let sr ← rd p (segmentsEnd + 8) (segmentsEnd + 16)
-          pure (.manifestSwitch e segs pr sr)
-    else if ty = walTagCheckpoint then
-      if p.length ≠ 32 then .error (.proto "invalid Checkpoint payload length")
-      else do
-        let a ← rd p 0 8
-        let b ← rd p 8 16
-        let c ← rd p 16 24
-        let d ← rd p 24 32
-        pure (.checkpoint a b c d)
-    else if ty = walTagSetNodeProperty then
-      if p.length < 4 + 4 then .error (.proto "invalid SetNodeProperty payload length")
-      else do
-        let n ← rd p 0 4
-        let kl ← rd p 4 8
-        if p.length < 8 + kl then .error (.proto "invalid SetNodeProperty payload length")
-        else do
-          let k ← rdStr p 8 (8 + kl) "invalid UTF-8 in key"
-          let v ← rdVal cfg (p.drop (8 + kl))
-          pure (.setNodeProperty n k v)
-    else if ty = walTagSetEdgeProperty then
-      if p.length < 12 + 4 then .error (.proto "invalid SetEdgeProperty payload length")
-      else do
-        let s ← rd p 0 4
-        let r ← rd p 4 8
-        let d ← rd p 8 12
-        let kl ← rd p 12 16
-        if p.length < 16 + kl then .error (.proto "invalid SetEdgeProperty payload length")
-        else do
-          let k ← rdStr p 16 (16 + kl) "invalid UTF-8 in key"
-          let v ← rdVal cfg (p.drop (16 + kl))
-          pure (.setEdgeProperty s r d k v)
-    else if ty = walTagRemoveNodeProperty then
-      if p.length < 4 + 4 then .error (.proto "invalid RemoveNodeProperty payload length")
-      else do
-        let n ← rd p 0 4
-        let kl ← rd p 4 8
-        if p.length ≠ 8 + kl then .error (.proto "invalid RemoveNodeProperty payload length")
-        else do
-          let k ← rdStr p 8 (8 + kl) "invalid UTF-8 in key"
-          pure (.removeNodeProperty n k)
-    else if ty = walTagRemoveEdgeProperty then
-      if p.length < 12 + 4 then .error (.proto "invalid RemoveEdgeProperty payload length")
-      else do
-        let s ← rd p 0 4
-        let r ← rd p 4 8
-        let d ← rd p 8 12
-        let kl ← rd p 12 16
-        if p.length ≠ 16 + kl then .error (.proto "invalid RemoveEdgeProperty payload length")
-        else do
-          let k ← rdStr p 16 (16 + kl) "invalid UTF-8 in key"
-          pure (.removeEdgeProperty s r d k)
+    else if ty = walTagCreateLabel then armCreateLabel p
+    else if ty = walTagCreateNode then armCreateNode p
+    else if ty = walTagAddNodeLabel then armAddNodeLabel p
+    else if ty = walTagRemoveNodeLabel then armRemoveNodeLabel p
+    else if ty = walTagCreateEdge then armCreateEdge p
+    else if ty = walTagTombstoneNode then armTombstoneNode p
+    else if ty = walTagTombstoneEdge then armTombstoneEdge p
+    else if ty = walTagManifestSwitch then armManifestSwitch cfg p
+    else if ty = walTagCheckpoint then armCheckpoint p
+    else if ty = walTagSetNodeProperty then armSetNodeProperty cfg p
+    else if ty = walTagSetEdgeProperty then armSetEdgeProperty cfg p
+    else if ty = walTagRemoveNodeProperty then armRemoveNodeProperty p
+    else if ty = walTagRemoveEdgeProperty then armRemoveEdgeProperty p
     else .error (.proto "unknown record type")
 
 end Nervus.WalRec
